@@ -1,5 +1,5 @@
 //! C18 end-to-end: `e2e timestamp n=<nodes> sh=<shards> threads=<t> tasks=<W> per=<k> explicit=<every m-th|0>
-//! gen=<mono|script> evict=<M|0> ov=<F|0> spec=<0|1> seed=<s>`
+//! gen=<mono|script> evict=<M|0> ov=<F|0> spec=<0|1> via=<session|caching> seed=<s>`
 //!
 //! A Session with `SessionBuilder::timestamp_generator(..)` - the MonotonicTimestampGenerator, or a scripted generator
 //! (`gen=script`: base + k*step, every value handed out is recorded) - on a `threads`-thread runtime; W tasks run
@@ -13,12 +13,19 @@
 //!   `spec=1`   speculative execution (2 extra executions, 3 ms apart; statements idempotent) while every 4th frame is
 //!              answered only after 12 ms, so SPECULATIVE COPIES are sent.
 //!
+//! `via=caching`: the same writes go through a `CachingSession` (cache of 2 statements, so it keeps re-preparing):
+//! `execute_unpaged(text, values)`, `execute_iter(SELECT text, values)`, and `batch` with an UNPREPARED statement
+//! with values (-> `prepare_batch`), with a prepared one, and with both mixed. Every write also sets its own
+//! consistency and serial consistency on the statement / batch (from the seed).
+//!
 //! ORACLE at the nodes (C18's statement), over EVERY frame of a write that arrives at any node - first send, retries,
 //! re-sent after re-preparation, speculative copies:
 //!  * every frame of a write with an explicitly set timestamp carries exactly that timestamp;
 //!  * every other write frame carries a timestamp (with `gen=script`: one the generator handed out); no timestamp is
 //!    carried by two different writes; along each task's own sequence of writes the generated timestamps strictly
-//!    increase (every timestamp of a later write exceeds every timestamp of an earlier one).
+//!    increase (every timestamp of a later write exceeds every timestamp of an earlier one);
+//!  * every frame of a write carries the consistency and the serial consistency the caller set on that statement or
+//!    batch (the statement's own configuration must reach the wire whichever wrapper it went through).
 use super::common::*;
 use crate::mockcluster::*;
 use crate::mocknode::{BatchStmt, Parsed, RESP_ERROR, body_unprepared};
@@ -67,6 +74,41 @@ pub fn generate(rng: &mut Rng, tier: Tier, emit: &mut dyn FnMut(String)) {
             rng.below(1 << 32)
         ));
     }
+    // the same writes through a CachingSession (statement / batch configuration must survive prepare_batch & co.)
+    let n_caching = if tier == Tier::Quick { 20 } else { 200 };
+    for i in 0..n_caching {
+        let (evict, ov) = match i % 4 {
+            0 | 1 => (0, 0),
+            2 => (2 + rng.below(4), 0),
+            _ => (0, 3 + rng.below(4)),
+        };
+        emit(format!(
+            "e2e timestamp n={} sh={} threads={} tasks={} per={} explicit={} gen={} evict={} ov={} spec=0 via=caching seed={}",
+            1 + rng.below(3),
+            *rng.pick(&[0u64, 0, 2]),
+            *rng.pick(&[1u64, 2, 4]),
+            1 + rng.below(4),
+            10 + rng.below(if tier == Tier::Quick { 10 } else { 30 }),
+            *rng.pick(&[1u64, 2, 2, 3]),
+            rng.pick(&["mono", "script"]),
+            evict,
+            ov,
+            rng.below(1 << 32)
+        ));
+    }
+}
+
+/// The consistency / serial consistency write (task, i) sets on its statement or batch: (value, wire code).
+fn cl_of(seed: u64, task: usize, i: usize) -> (scylla::statement::Consistency, u16) {
+    use scylla::statement::Consistency::*;
+    let mut r = Rng::new(seed ^ ((task as u64) << 24) ^ ((i as u64) << 4) ^ 0x636c);
+    *r.pick(&[(One, 1u16), (Two, 2), (Quorum, 4), (All, 5), (LocalQuorum, 6), (LocalOne, 10)])
+}
+
+fn sc_of(seed: u64, task: usize, i: usize) -> (Option<scylla::statement::SerialConsistency>, Option<u16>) {
+    use scylla::statement::SerialConsistency::*;
+    let mut r = Rng::new(seed ^ ((task as u64) << 24) ^ ((i as u64) << 4) ^ 0x7363);
+    *r.pick(&[(Some(Serial), Some(8u16)), (Some(LocalSerial), Some(9)), (None, None)])
 }
 
 fn key_of(task: usize, i: usize) -> Vec<u8> {
@@ -80,6 +122,15 @@ fn text_of(task: usize, i: usize) -> String {
 fn explicit_ts(seed: u64, task: usize, i: usize) -> i64 {
     let mut r = Rng::new(seed ^ ((task as u64) << 32) ^ i as u64 ^ 0x7473);
     r.i64_boundary()
+}
+
+/// (consistency, serial consistency) on the wire
+fn wire_cl(r: &Req) -> Option<(u16, Option<u16>)> {
+    match &r.parsed {
+        Parsed::Execute { params, .. } | Parsed::Query { params, .. } => Some((params.consistency, params.serial_consistency)),
+        Parsed::Batch { consistency, serial_consistency, .. } => Some((*consistency, *serial_consistency)),
+        _ => None,
+    }
 }
 
 /// (task, index, timestamp on the wire)
@@ -147,6 +198,11 @@ pub fn run(words: &[&str], ctx: &mut Ctx) -> String {
     };
     let (Some(evict), Some(ov), Some(spec)) = (p.num_or("evict", 0), p.num_or("ov", 0), p.num_or("spec", 0)) else { return "bad-case".into() };
     let gen_kind = p.str("gen").unwrap_or("mono");
+    let via = p.str("via").unwrap_or("session");
+    if !["session", "caching"].contains(&via) {
+        return "bad-case".into();
+    }
+    let caching = via == "caching";
     // hard=1 (never generated): the node may evict for the same write again and again
     let Some(hard) = p.num_or("hard", 0) else { return "bad-case".into() };
     if !(1..=8).contains(&n) || sh > 8 || !(1..=8).contains(&threads) || !(1..=64).contains(&tasks) || !(1..=2000).contains(&per) {
@@ -195,6 +251,11 @@ pub fn run(words: &[&str], ctx: &mut Ctx) -> String {
         if spec != 0 && st.all_frames % 4 == 0 {
             return vec![Act::Delay(Duration::from_millis(12)), act_void()];
         }
+        if let Parsed::Execute { id, params, .. } = &r.parsed {
+            if *id == stmt_id(SELECT) {
+                return vec![Act::Respond(crate::mocknode::RESP_RESULT, rows_body(&row_specs(), !params.skip_metadata, None, &[]))];
+            }
+        }
         vec![act_void()]
     });
     let scripted = Arc::new(ScriptedGenerator {
@@ -231,32 +292,86 @@ pub fn run(words: &[&str], ctx: &mut Ctx) -> String {
         };
         ps.set_is_idempotent(idempotent);
         let is_explicit = move |i: usize| explicit != 0 && i % explicit == explicit - 1;
+        // via=caching: the Session is owned by the CachingSession (tiny cache: constant client-side re-preparation)
+        enum Via {
+            Plain(Arc<scylla::client::session::Session>),
+            Caching(Arc<scylla::client::caching_session::CachingSession>),
+        }
+        let via_obj = if caching {
+            match Arc::try_unwrap(session) {
+                Ok(s) => Via::Caching(Arc::new(scylla::client::caching_session::CachingSession::from(s, 2))),
+                Err(_) => return "e2e-skip session-shared".to_owned(),
+            }
+        } else {
+            Via::Plain(session)
+        };
         let mut handles = Vec::new();
         for task in 0..tasks {
-            let (session, ps) = (Arc::clone(&session), ps.clone());
+            let ps = ps.clone();
+            let via_t = match &via_obj {
+                Via::Plain(s) => Via::Plain(Arc::clone(s)),
+                Via::Caching(c) => Via::Caching(Arc::clone(c)),
+            };
             handles.push(tokio::spawn(async move {
+                use futures::StreamExt;
                 let mut errors = 0;
                 for i in 0..per {
                     let ts = is_explicit(i).then(|| explicit_ts(seed, task, i));
-                    let ok = match (task + i) % 3 {
-                        0 => {
-                            let mut ps = ps.clone();
-                            ps.set_timestamp(ts);
-                            session.execute_unpaged(&ps, (key_of(task, i), 0i32)).await.is_ok()
-                        }
-                        1 => {
-                            let mut st = Statement::new(text_of(task, i));
-                            st.set_timestamp(ts);
-                            st.set_is_idempotent(idempotent);
-                            session.query_unpaged(st, ()).await.is_ok()
-                        }
-                        _ => {
-                            let mut b = Batch::new(BatchType::Unlogged);
-                            b.append_statement(ps.clone());
-                            b.set_timestamp(ts);
-                            b.set_is_idempotent(idempotent);
-                            session.batch(&b, ((key_of(task, i), 0i32),)).await.is_ok()
-                        }
+                    let (cl, _) = cl_of(seed, task, i);
+                    let (sc, _) = sc_of(seed, task, i);
+                    let key = key_of(task, i);
+                    let configured_ps = || {
+                        let mut h = ps.clone();
+                        h.set_timestamp(ts);
+                        h.set_consistency(cl);
+                        h.set_serial_consistency(sc);
+                        h
+                    };
+                    let configured_stmt = |text: &str| {
+                        let mut st = Statement::new(text);
+                        st.set_timestamp(ts);
+                        st.set_consistency(cl);
+                        st.set_serial_consistency(sc);
+                        st.set_is_idempotent(idempotent);
+                        st
+                    };
+                    let configured_batch = |stmts: Vec<scylla::statement::batch::BatchStatement>| {
+                        let mut b = Batch::new_with_statements(BatchType::Unlogged, stmts);
+                        b.set_timestamp(ts);
+                        b.set_consistency(cl);
+                        b.set_serial_consistency(sc);
+                        b.set_is_idempotent(idempotent);
+                        b
+                    };
+                    let ok = match &via_t {
+                        Via::Plain(session) => match (task + i) % 3 {
+                            0 => session.execute_unpaged(&configured_ps(), (key, 0i32)).await.is_ok(),
+                            1 => session.query_unpaged(configured_stmt(&text_of(task, i)), ()).await.is_ok(),
+                            _ => session.batch(&configured_batch(vec![ps.clone().into()]), ((key, 0i32),)).await.is_ok(),
+                        },
+                        Via::Caching(cs) => match (task + i) % 5 {
+                            0 => cs.execute_unpaged(configured_stmt(INSERT), (key, 0i32)).await.is_ok(),
+                            1 => match cs.execute_iter(configured_stmt(SELECT), (key,)).await {
+                                Ok(pager) => match pager.rows_stream::<(Vec<u8>, i32)>() {
+                                    Ok(mut rows) => {
+                                        let mut ok = true;
+                                        while let Some(r) = rows.next().await {
+                                            ok &= r.is_ok();
+                                        }
+                                        ok
+                                    }
+                                    Err(_) => false,
+                                },
+                                Err(_) => false,
+                            },
+                            // an UNPREPARED statement with values: CachingSession::batch goes through prepare_batch
+                            2 => cs.batch(&configured_batch(vec![Statement::new(INSERT).into()]), ((key, 0i32),)).await.is_ok(),
+                            3 => cs.batch(&configured_batch(vec![ps.clone().into()]), ((key, 0i32),)).await.is_ok(),
+                            _ => cs
+                                .batch(&configured_batch(vec![ps.clone().into(), Statement::new(INSERT).into()]), ((key.clone(), 0i32), (key, 1i32)))
+                                .await
+                                .is_ok(),
+                        },
                     };
                     if !ok {
                         errors += 1;
@@ -294,6 +409,15 @@ pub fn run(words: &[&str], ctx: &mut Ctx) -> String {
                 continue;
             }
             n_frames += 1;
+            if let Some((cl, sc)) = wire_cl(&f) {
+                let (want_cl, want_sc) = (cl_of(seed, task, i).1, sc_of(seed, task, i).1);
+                if cl != want_cl || sc != want_sc {
+                    ctx.fail(format!(
+                        "e2e timestamp: write {} of task {} (via {}) set consistency {} / serial consistency {:?} on its statement or batch; a frame of it arrived at node {} with consistency {} / serial consistency {:?}",
+                        i, task, via, want_cl, want_sc, f.node, cl, sc
+                    ));
+                }
+            }
             let Some(ts) = ts else {
                 ctx.fail(format!("e2e timestamp: write {} of task {} arrived without a timestamp although the session has a timestamp generator", i, task));
                 continue;
